@@ -6,7 +6,9 @@ package main
 
 import (
 	"fmt"
+	"go/constant"
 	"go/types"
+	"math/big"
 	"strings"
 
 	"golang.org/x/tools/go/ssa"
@@ -126,6 +128,11 @@ func init() {
 				}
 			}
 		}
+		if isConst {
+			if r, ok := x.sprintfConst(st, k2s(in), args); ok {
+				return one(r)
+			}
+		}
 		// any other format: some string (its content is not modelled)
 		r := Fresh("sprintf", SBytes)
 		x.countAllocN(st, Len(r))
@@ -154,25 +161,6 @@ func init() {
 		st.Assume(Implies(Not(ok), Eq(n, IntLit(0))))
 		return []Value{n, x.condErr(st, "atoi", ok, TFalse)}
 	})
-	for _, m := range []string{"Month", "Day", "Hour", "Minute", "Second"} {
-		m := m
-		reg("time.(Time)."+m, func(x *Exec, st *State, fr *Frame, in ssa.Instruction, callee *ssa.Function, args []Value) []Value {
-			x.assume("A-TIME")
-			v := Fresh("time."+m, SInt)
-			lo, hi := int64(0), int64(59)
-			switch m {
-			case "Month":
-				lo, hi = 1, 12
-			case "Day":
-				lo, hi = 1, 31
-			case "Hour":
-				hi = 23
-			}
-			st.Assume(And(Le(IntLit(lo), v), Le(v, IntLit(hi))))
-			constBounds[v] = boundsOf(lo, hi)
-			return one(v)
-		})
-	}
 	// hash.Hash as returned by md5.New(): ghost accumulated input
 	reg("crypto/md5.New", func(x *Exec, st *State, fr *Frame, in ssa.Instruction, callee *ssa.Function, args []Value) []Value {
 		x.assume("A-MD5")
@@ -203,4 +191,188 @@ func init() {
 		return one(x.newByteSlice(st, Cat(pre, x.md5Of(st, x.connGet(st, recv, 0))), "sum"))
 	})
 	_ = fmt.Sprint
+}
+
+// k2s: the constant format string of a Sprintf call (with Go escapes resolved).
+func k2s(in ssa.Instruction) string {
+	if c, ok := in.(*ssa.Call); ok && len(c.Call.Args) > 0 {
+		if k, ok := c.Call.Args[0].(*ssa.Const); ok && k.Value != nil && k.Value.Kind() == constant.String {
+			return constant.StringVal(k.Value)
+		}
+	}
+	return ""
+}
+
+// sprintfConst: Sprintf with a constant format made of literal text, %s on strings and %d / %0Nd on integers
+// (A-FMT: %0Nd of 0 <= n < 10^N is exactly N decimal digits; dec2 and dec10 are the N = 2 and N = 10 cases).
+func (x *Exec) sprintfConst(st *State, format string, args []Value) (*Term, bool) {
+	va, ok := args[1].(*SliceVal)
+	if !ok || va.Len.Op != "int" {
+		return nil, false
+	}
+	nargs := va.Len.Num.Int64()
+	var parts []*Term
+	lit := ""
+	flush := func() {
+		if lit != "" {
+			parts = append(parts, x.strLit(st, lit))
+			lit = ""
+		}
+	}
+	ai := int64(0)
+	for i := 0; i < len(format); i++ {
+		c := format[i]
+		if c != '%' {
+			lit += string(c)
+			continue
+		}
+		j := i + 1
+		if j < len(format) && format[j] == '%' {
+			lit += "%"
+			i = j
+			continue
+		}
+		width, zero := 0, false
+		if j < len(format) && format[j] == '0' {
+			zero = true
+			j++
+		}
+		for j < len(format) && format[j] >= '0' && format[j] <= '9' {
+			width = width*10 + int(format[j]-'0')
+			j++
+		}
+		if j >= len(format) || ai >= nargs {
+			return nil, false
+		}
+		v, ok := x.unbox(st, va, ai)
+		ai++
+		iv, ok2 := v.(*IfaceVal)
+		if !ok || !ok2 || iv.Dyn == nil {
+			return nil, false
+		}
+		switch format[j] {
+		case 'd':
+			t, ok := iv.V.(*Term)
+			if !ok || !isIntegerT(iv.Dyn) || (width > 0 && !zero) {
+				return nil, false
+			}
+			n := x.toInt(t)
+			flush()
+			var d *Term
+			switch width {
+			case 2:
+				d = App("dec2", SBytes, n)
+			case 10:
+				d = App("dec10", SBytes, n)
+			default:
+				d = App("decw", SBytes, IntLit(int64(width)), n)
+			}
+			if width > 0 && width <= 18 {
+				lim := new(big.Int).Exp(big.NewInt(10), big.NewInt(int64(width)), nil)
+				st.Assume(Implies(And(Le(IntLit(0), n), Lt(n, IntBig(lim))), Eq(App("len", SInt, d), IntLit(int64(width)))))
+			}
+			parts = append(parts, d)
+		case 's':
+			t, ok := iv.V.(*Term)
+			if !ok || t.S != SBytes || width > 0 {
+				return nil, false
+			}
+			flush()
+			parts = append(parts, t)
+		default:
+			return nil, false
+		}
+		i = j
+	}
+	if ai != nargs {
+		return nil, false
+	}
+	flush()
+	x.assume("A-FMT2")
+	r := CatN(parts...)
+	x.countAllocN(st, Len(r))
+	return r, true
+}
+
+// scanName: the spec-function suffix for a Sscanf format made only of %[0]Nd verbs, e.g. "2_2_2_2_2_7_5"; ok=false otherwise.
+func scanName(format string) (string, []int, bool) {
+	var ws []int
+	for i := 0; i < len(format); {
+		if format[i] != '%' {
+			return "", nil, false
+		}
+		j := i + 1
+		w := 0
+		for j < len(format) && format[j] >= '0' && format[j] <= '9' {
+			w = w*10 + int(format[j]-'0')
+			j++
+		}
+		if j >= len(format) || format[j] != 'd' || w == 0 || w > 18 {
+			return "", nil, false
+		}
+		ws = append(ws, w)
+		i = j + 1
+	}
+	if len(ws) == 0 {
+		return "", nil, false
+	}
+	parts := make([]string, len(ws))
+	for i, w := range ws {
+		parts[i] = fmt.Sprint(w)
+	}
+	return strings.Join(parts, "_"), ws, true
+}
+
+func init() {
+	assumptionText["A-SCAN"] = "fmt.Sscanf with a constant format of %0Nd verbs is a partial function of the input: it succeeds or not (scanok_<widths>(s)) and, when it succeeds, stores scan_<widths>(s, i) into its i-th target; that it inverts Sprintf of the same format on in-range fields is a hypothesis of the lemma that uses it, exercised by the MSGID stand-in"
+	reg("fmt.Sscanf", func(x *Exec, st *State, fr *Frame, in ssa.Instruction, callee *ssa.Function, args []Value) []Value {
+		name, ws, ok := scanName(k2sArg(in, 1))
+		va, ok2 := args[2].(*SliceVal)
+		if !ok || !ok2 || va.Len.Op != "int" || va.Len.Num.Int64() != int64(len(ws)) {
+			panic(unsupported("fmt.Sscanf with a format other than a constant sequence of %0Nd verbs"))
+		}
+		x.assume("A-SCAN")
+		s := args[0].(*Term)
+		okT := App("scanok_"+name, SBool, s)
+		for i := range ws {
+			v, ok := x.unbox(st, va, int64(i))
+			iv, ok2 := v.(*IfaceVal)
+			if !ok || !ok2 || iv.Dyn == nil {
+				panic(unsupported("fmt.Sscanf target not known statically"))
+			}
+			pt, ok := iv.Dyn.(*types.Pointer)
+			if !ok {
+				panic(unsupported("fmt.Sscanf target " + iv.Dyn.String()))
+			}
+			bits, ok := dynIntBits(pt.Elem())
+			if !ok {
+				panic(unsupported("fmt.Sscanf target " + iv.Dyn.String()))
+			}
+			dst := iv.V.(*PtrVal)
+			x.safety(st, "nil", in, Not(dst.Nil), "Sscanf target not nil")
+			// on success the scanned field; on failure whatever had been stored before the failure (unknown)
+			nv := Fresh("scanned", SInt)
+			st.Assume(Implies(okT, Eq(nv, App("scan_"+name, SInt, s, IntLit(int64(i))))))
+			lo, hi := intRange(pt.Elem())
+			st.Assume(And(Le(IntBig(lo), nv), Le(nv, IntBig(hi))))
+			var stored Value = nv
+			if x.bv {
+				stored = Int2BV(nv, bits)
+			}
+			x.store(st, in, dst, stored)
+		}
+		n := Fresh("scan.n", SInt)
+		st.Assume(And(Le(IntLit(0), n), Le(n, IntLit(int64(len(ws)))), Implies(okT, Eq(n, IntLit(int64(len(ws)))))))
+		return []Value{n, x.condErr(st, "sscanf", okT, nil)}
+	})
+}
+
+// k2sArg: the constant string passed as the i-th argument of a call.
+func k2sArg(in ssa.Instruction, i int) string {
+	if c, ok := in.(*ssa.Call); ok && len(c.Call.Args) > i {
+		if k, ok := c.Call.Args[i].(*ssa.Const); ok && k.Value != nil && k.Value.Kind() == constant.String {
+			return constant.StringVal(k.Value)
+		}
+	}
+	return ""
 }
